@@ -7,6 +7,8 @@ if args and args[0] == "--round2":
     root, tag, args = "/tmp/seed2", "r2", args[1:]
 if args and args[0] == "--round3":
     root, tag, args = "/tmp/seed3", "r3", args[1:]
+if args and args[0] == "--round4":
+    root, tag, args = "/tmp/seed4", "r4", args[1:]
 for pid in args:
     src = "%s/%s-out" % (root, pid)
     for i in ("1", "2", "3"):
